@@ -1,0 +1,25 @@
+// Copyright (C) 2026 Storj Labs, Inc.
+// See LICENSE for copying information.
+
+//go:build verif
+
+package drpchttp
+
+// The declarations in this file exist only under the verif build tag. They
+// expose internal helpers to external checkers without changing behavior.
+
+// VerifMaxSize is the request/response size limit.
+const VerifMaxSize = maxSize
+
+var (
+	// VerifUnescape is unescape.
+	VerifUnescape = unescape
+	// VerifBuildContext is buildContext.
+	VerifBuildContext = buildContext
+	// VerifGetCode is getCode.
+	VerifGetCode = getCode
+	// VerifTwirpRead is twirpRead.
+	VerifTwirpRead = twirpRead
+	// VerifGrpcRead is grpcRead.
+	VerifGrpcRead = grpcRead
+)
